@@ -88,8 +88,10 @@ EvInject ==
                          infl == RSum([k \in 1..c.P |-> IF k \in Live(c) THEN InjectMass(c.grids, k, dt, th) ELSE "0"])
                      IN RCloseRel(RSub(mA, mB), infl, "0", RMul(TauLin, RAdd(RAbs(mA), RAbs(mB)))))
        IN bad' = bad \cup f
-    /\ stepdt' = e.dt /\ swept' = {} /\ cur' = e.after
-    /\ UNCHANGED <<call, t>>
+    \* with every population frozen there is nothing to sweep: the step is complete with the injection event
+    /\ IF NonFrozen(call) = {} THEN stepdt' = "0" /\ t' = RAdd(t, e.dt) ELSE stepdt' = e.dt /\ t' = t
+    /\ swept' = {} /\ cur' = e.after
+    /\ UNCHANGED call
 
 \* C04: probability leaves only through the two absorbing corners: Mass(after) - Mass(before) = -dt * outflow,
 \* the outflow computed from the post-sweep values at the end nodes of the corner lines
